@@ -445,3 +445,220 @@ Lemma self_match_refuted is_sig is_pubkey :
   (* (iii) the empty script: template [Push []] *)
   (from_bytes [] = Ok [] /\ template_from_script [] = Ok [MPush []] /\ match_impl is_sig is_pubkey [] [MPush []] = Err).
 Proof. repeat split; reflexivity. Qed.
+
+(* ================================================================== *)
+(* 6. the library reads every template of the documented grammar as documented
+      (outside the class of the tokens "00".."09") *)
+Definition is_digit (c : ascii) : bool := match digit_val c with Some _ => true | None => false end.
+
+Lemma strip_prefix_spec p : forall s r, strip_prefix p s = Some r -> s = p +++ r.
+Proof.
+  induction p as [|a p IH]; intros s r H; cbn [strip_prefix] in H; [inv H; reflexivity|].
+  destruct s as [|b s]; [discriminate|]. destruct (Ascii.eqb_spec a b) as [->|]; [|discriminate].
+  cbn [String.append]. f_equal. apply IH. exact H.
+Qed.
+
+Lemma dec_acc_digits : forall n acc v, dec_acc n acc = Some v -> all_chars is_digit n = true.
+Proof.
+  induction n as [|c n IH]; intros acc v H; [reflexivity|]. cbn [dec_acc] in H. cbn [all_chars]. unfold is_digit at 1.
+  destruct (digit_val c); [|discriminate]. cbn [andb]. eapply IH. exact H.
+Qed.
+Lemma N_of_dec_digits n v : N_of_dec n = Some v -> n <> "" /\ all_chars is_digit n = true.
+Proof.
+  unfold N_of_dec. destruct n as [|c n]; [discriminate|]. intros H. split; [discriminate|]. eapply dec_acc_digits. exact H.
+Qed.
+
+(* the first character of the pattern does not occur: no match *)
+Lemma find_after_absent a p : forall s, all_chars (fun c => negb (Ascii.eqb a c)) s = true -> find_after (String a p) s = None.
+Proof.
+  induction s as [|b s IH]; [reflexivity|]. cbn [all_chars]. intros H. apply andb_true_iff in H. destruct H as [Hb Hs].
+  apply negb_true_iff in Hb. cbn [find_after strip_prefix]. rewrite Hb. exact (IH Hs).
+Qed.
+
+Lemma digit_not c a : is_digit c = true -> (a = ">" \/ a = "<" \/ a = "=" \/ a = "+")%char -> Ascii.eqb a c = false.
+Proof.
+  intros H Ha. destruct (Ascii.eqb_spec a c) as [<-|]; [|reflexivity].
+  destruct Ha as [-> | [-> | [-> | ->]]]; vm_compute in H; discriminate.
+Qed.
+
+Lemma digits_absent a n : all_chars is_digit n = true -> (a = ">" \/ a = "<" \/ a = "=" \/ a = "+")%char ->
+  all_chars (fun c => negb (Ascii.eqb a c)) n = true.
+Proof. intros H Ha. eapply all_chars_impl; [|exact H]. intros c Hc. cbn beta. rewrite (digit_not c a Hc Ha). reflexivity. Qed.
+
+Lemma parse_uint_digits max n v : N_of_dec n = Some v -> (v <=? max)%N = true -> parse_uint max n = Some v.
+Proof.
+  intros H Hv. destruct (N_of_dec_digits n v H) as [Hne Hd]. unfold parse_uint.
+  destruct n as [|c n']; [congruence|].
+  cbn [all_chars] in Hd. apply andb_true_iff in Hd. destruct Hd as [Hc _].
+  assert (Hp : Ascii.eqb "+" c = false) by (apply digit_not; auto).
+  assert (E : match String c n' with String "+" r => r | _ => String c n' end = String c n').
+  { destruct c as [[] [] [] [] [] [] [] []]; try reflexivity. vm_compute in Hp. discriminate. }
+  rewrite E, H, Hv. reflexivity.
+Qed.
+
+Lemma find_after_step a p b s :
+  find_after (String a p) (String b s) =
+    if Ascii.eqb a b then match strip_prefix p s with Some r => Some r | None => find_after (String a p) s end
+    else find_after (String a p) s.
+Proof. cbn [find_after strip_prefix]. destruct (Ascii.eqb a b); reflexivity. Qed.
+
+Lemma find_after_app_absent a p s1 s2 :
+  all_chars (fun c => negb (Ascii.eqb a c)) s1 = true -> find_after (String a p) (s1 +++ s2) = find_after (String a p) s2.
+Proof.
+  induction s1 as [|b s1 IH]; [reflexivity|]. cbn [all_chars String.append]. intros H. apply andb_true_iff in H. destruct H as [Hb Hs].
+  apply negb_true_iff in Hb. rewrite find_after_step, Hb. exact (IH Hs).
+Qed.
+
+Lemma strip_eq_digits n : all_chars is_digit n = true -> strip_prefix "=" n = None.
+Proof.
+  destruct n as [|c n]; [reflexivity|]. cbn [all_chars strip_prefix]. intros H. apply andb_true_iff in H. destruct H as [H _].
+  rewrite (digit_not c "=" H) by auto. reflexivity.
+Qed.
+
+Lemma data_token_spec r k n v :
+  cmp_of_text r = Some (k, n) -> N_of_dec n = Some v -> (v <=? usize_max)%N = true ->
+  data_token ("OP_DATA" +++ r) = Some (Ok (MData v k)).
+Proof.
+  intros Hc Hn Hv. destruct (N_of_dec_digits n v Hn) as [Hne Hd].
+  pose proof (parse_uint_digits usize_max n v Hn Hv) as Hp.
+  pose proof (find_after_absent ">" "=" n (digits_absent ">" n Hd ltac:(auto))) as A1.
+  pose proof (find_after_absent "<" "=" n (digits_absent "<" n Hd ltac:(auto))) as A2.
+  pose proof (find_after_absent "=" "" n (digits_absent "=" n Hd ltac:(auto))) as A3.
+  pose proof (find_after_absent ">" "" n (digits_absent ">" n Hd ltac:(auto))) as A4.
+  pose proof (find_after_absent "<" "" n (digits_absent "<" n Hd ltac:(auto))) as A5.
+  pose proof (strip_eq_digits n Hd) as S0.
+  assert (Pre : forall a p, (a = ">" \/ a = "<" \/ a = "=")%char ->
+                            find_after (String a p) ("OP_DATA" +++ r) = find_after (String a p) r).
+  { intros a p [-> | [-> | ->]]; apply find_after_app_absent; reflexivity. }
+  unfold data_token. cbv beta zeta.
+  rewrite !Pre by auto. clear Pre.
+  assert (Q1 : Ascii.eqb ">" "<" = false) by reflexivity. assert (Q2 : Ascii.eqb ">" "=" = false) by reflexivity.
+  assert (Q3 : Ascii.eqb "<" ">" = false) by reflexivity. assert (Q4 : Ascii.eqb "<" "=" = false) by reflexivity.
+  assert (Q5 : Ascii.eqb "=" ">" = false) by reflexivity. assert (Q6 : Ascii.eqb "=" "<" = false) by reflexivity.
+  assert (SP : forall x, strip_prefix "" x = Some x) by reflexivity.
+  assert (SE : forall x, strip_prefix "=" (String "=" x) = Some x) by reflexivity.
+  destruct r as [|c1 r1]; [discriminate|].
+  unfold cmp_of_text in Hc.
+  destruct (Ascii.eqb_spec c1 ">") as [->|N1].
+  - destruct r1 as [|c2 r2]; [inv Hc; congruence|].
+    destruct (Ascii.eqb_spec c2 "=") as [->|N2].
+    + inv Hc. rewrite !find_after_step, !Ascii.eqb_refl, SE, Hp. reflexivity.
+    + assert (Hc' : Some (CGreaterThan, String c2 r2) = Some (k, n)).
+      { destruct c2 as [[] [] [] [] [] [] [] []]; try exact Hc. congruence. }
+      injection Hc' as <- Hn'. rewrite Hn'.
+      rewrite !find_after_step, ?Ascii.eqb_refl, ?Q1, ?Q2, ?Q3, ?Q4, ?Q5, ?Q6, ?S0, ?SP, ?A1, ?A2, ?A3, Hp. reflexivity.
+  - destruct (Ascii.eqb_spec c1 "<") as [->|N3].
+    + destruct r1 as [|c2 r2]; [inv Hc; congruence|].
+      destruct (Ascii.eqb_spec c2 "=") as [->|N2].
+      * inv Hc. rewrite !find_after_step, ?Ascii.eqb_refl, ?Q1, ?Q2, ?Q3, ?Q4, ?Q5, ?Q6, ?SE, ?A1, Hp. reflexivity.
+      * assert (Hc' : Some (CLessThan, String c2 r2) = Some (k, n)).
+        { destruct c2 as [[] [] [] [] [] [] [] []]; try exact Hc. congruence. }
+        injection Hc' as <- Hn'. rewrite Hn'.
+        rewrite !find_after_step, ?Ascii.eqb_refl, ?Q1, ?Q2, ?Q3, ?Q4, ?Q5, ?Q6, ?S0, ?SP, ?A1, ?A2, ?A3, ?A4, Hp. reflexivity.
+    + destruct (Ascii.eqb_spec c1 "=") as [->|N4].
+      * inv Hc. rewrite !find_after_step, ?Ascii.eqb_refl, ?Q1, ?Q2, ?Q3, ?Q4, ?Q5, ?Q6, ?SP, ?A1, ?A2, Hp. reflexivity.
+      * exfalso. destruct c1 as [[] [] [] [] [] [] [] []]; try discriminate; congruence.
+Qed.
+
+Lemma push_token_spec d :
+  push_token d = let c := push_class (N.of_nat (length d)) in if (c <=? 75)%N then MPush d else MPushData c d.
+Proof.
+  unfold push_token, get_pushdata_opcode, push_class, minimal_prefix, OP_PUSHDATA1, OP_PUSHDATA2, OP_PUSHDATA4.
+  set (n := N.of_nat (length d)). cbv zeta.
+  destruct (n <=? 75)%N eqn:E1.
+  - cbn [b2n]. rewrite b2n_n2b by lia. rewrite E1. reflexivity.
+  - destruct (n <=? 255)%N; [reflexivity|]. destruct (n <=? 65535)%N; reflexivity.
+Qed.
+
+Lemma digit_val_inv c x : digit_val c = Some x -> c = ascii_of_N (48 + x) /\ (x <= 9)%N.
+Proof.
+  unfold digit_val. destruct ((48 <=? N_of_ascii c)%N && (N_of_ascii c <=? 57)%N) eqn:E; [|discriminate].
+  intros H. inv H. split; [|lia].
+  replace (48 + (N_of_ascii c - 48))%N with (N_of_ascii c) by lia. symmetry. apply ascii_N_embedding.
+Qed.
+
+(* a two-character hex token that is neither "0d" nor an alias is not read as a number <= 16 *)
+Lemma short_hex_not_numeric u d :
+  Nat.ltb (slength u) 3 = true -> bytes_of_hex u = Some d -> u <> "" ->
+  dec_alias u = None -> short_numeric_token u = false ->
+  match parse_uint u8_max u with Some n => (n =? 0)%N = false /\ (n <=? 16)%N = false | None => True end.
+Proof.
+  intros Hl Hh Hne Ha Hs.
+  destruct u as [|a [|b [|c u']]]; [congruence | discriminate | | cbn in Hl; discriminate].
+  unfold parse_uint.
+  destruct (Ascii.eqb_spec a "+") as [->|Np].
+  - cbn in Hh. discriminate.
+  - assert (E : match String a (String b "") with String "+" r => r | _ => String a (String b "") end = String a (String b "")).
+    { destruct a as [[] [] [] [] [] [] [] []]; try reflexivity. congruence. }
+    rewrite E. unfold N_of_dec. cbn [dec_acc].
+    destruct (digit_val a) as [x|] eqn:Da; [|exact I].
+    destruct (digit_val b) as [y|] eqn:Db; [|exact I].
+    destruct (digit_val_inv a x Da) as [-> Lx]. destruct (digit_val_inv b y Db) as [-> Ly].
+    replace (10 * (10 * 0 + x) + y)%N with (10 * x + y)%N by lia.
+    destruct (10 * x + y <=? u8_max)%N; [|exact I].
+    destruct (10 * x + y <=? 16)%N eqn:E16; [exfalso | split; lia].
+    assert (x = 0 \/ x = 1)%N as [-> | ->] by lia.
+    + cbn [short_numeric_token] in Hs. change (ascii_of_N (48 + 0)) with "0"%char in Hs. rewrite Db in Hs. discriminate.
+    + assert (y = 0 \/ y = 1 \/ y = 2 \/ y = 3 \/ y = 4 \/ y = 5 \/ y = 6)%N as C by lia.
+      repeat (destruct C as [->|C]; [vm_compute in Ha; discriminate|]). subst y. vm_compute in Ha. discriminate.
+Qed.
+
+Lemma map_match_token_spec u t :
+  spec_mtoken u = Some t -> short_numeric_token u = false -> map_match_token u = Ok t.
+Proof.
+  unfold spec_mtoken. intros H Hs.
+  destruct (dec_alias u) as [c|] eqn:D.
+  - (* alias *)
+    inv H. unfold dec_alias in D.
+    destruct (Nat.leb (slength u) 2); [|discriminate].
+    destruct (N_of_dec u) as [k|]; [|discriminate].
+    destruct (k <=? 16)%N eqn:K; [|discriminate].
+    destruct (String.eqb (dec_of_N k) u) eqn:S; [|discriminate].
+    apply String.eqb_eq in S. subst u.
+    assert (k = 0 \/ k = 1 \/ k = 2 \/ k = 3 \/ k = 4 \/ k = 5 \/ k = 6 \/ k = 7 \/ k = 8 \/ k = 9 \/ k = 10 \/
+            k = 11 \/ k = 12 \/ k = 13 \/ k = 14 \/ k = 15 \/ k = 16)%N as C by lia.
+    repeat (destruct C as [->|C]; [inv D; reflexivity|]). subst k. inv D. reflexivity.
+  - destruct (opcode_of_name u) as [c|] eqn:E.
+    + (* opcode name *)
+      inv H. pose proof (lookup_val_in _ _ _ E) as Hin.
+      pose proof names_long as T0. rewrite forallb_forall in T0. specialize (T0 _ Hin). cbn [fst] in T0. apply Nat.leb_le in T0.
+      unfold map_match_token. replace (Nat.ltb (slength u) 3) with false by (symmetry; apply Nat.ltb_ge; lia).
+      rewrite E. unfold OP_SIG, OP_PUBKEY, OP_PUBKEYHASH, OP_DATA.
+      destruct (c =? 251)%N eqn:E1, (c =? 252)%N eqn:E2, (c =? 253)%N eqn:E3, (c =? 254)%N eqn:E4; try lia; reflexivity.
+    + destruct (strip_prefix "OP_DATA" u) as [r|] eqn:P.
+      * (* OP_DATA<op><len> *)
+        destruct (cmp_of_text r) as [[k n]|] eqn:C; [|discriminate].
+        destruct (N_of_dec n) as [v|] eqn:Nn; [|discriminate].
+        destruct (v <=? 18446744073709551615)%N eqn:Hv; [|discriminate]. inv H.
+        pose proof (strip_prefix_spec _ _ _ P) as ->.
+        unfold map_match_token.
+        replace (Nat.ltb (slength ("OP_DATA" +++ r)) 3) with false by reflexivity.
+        rewrite E, op_text_data. unfold starts_with. rewrite P.
+        rewrite (data_token_spec r k n v C Nn Hv). reflexivity.
+      * (* hex data *)
+        assert (Hne : u <> "") by (intros ->; discriminate).
+        assert (H' : match bytes_of_hex u with
+                     | Some d => Some (let c := push_class (N.of_nat (length d)) in if (c <=? 75)%N then MPush d else MPushData c d)
+                     | None => None end = Some t) by (destruct u; [congruence | exact H]).
+        clear H. destruct (bytes_of_hex u) as [d|] eqn:Hh; [|discriminate]. inv H'.
+        rewrite <- push_token_spec.
+        unfold map_match_token. cbv zeta. rewrite E, op_text_data. unfold starts_with. rewrite P, Hh.
+        destruct (Nat.ltb (slength u) 3) eqn:L; [|reflexivity].
+        pose proof (short_hex_not_numeric u d L Hh Hne D Hs) as Q.
+        destruct (parse_uint u8_max u) as [n|]; [|reflexivity]. destruct Q as [Q1 Q2]. rewrite Q1, Q2. reflexivity.
+Qed.
+
+Lemma map_match_tokens_spec l ts :
+  spec_mtokens l = Some ts -> existsb short_numeric_token l = false -> map_match_tokens l = Ok ts.
+Proof.
+  revert ts. induction l as [|u l IH]; intros ts H Hs; [inv H; reflexivity|].
+  cbn [spec_mtokens] in H. cbn [existsb] in Hs. apply orb_false_iff in Hs. destruct Hs as [Hu Hl].
+  destruct (spec_mtoken u) as [t|] eqn:E; [|discriminate].
+  destruct (spec_mtokens l) as [ts'|] eqn:E'; [|discriminate]. inv H.
+  cbn [map_match_tokens]. rewrite (map_match_token_spec u t E Hu). cbn [bind]. rewrite (IH ts' eq_refl Hl). reflexivity.
+Qed.
+
+Lemma template_grammar text ts :
+  spec_template text = Some ts -> existsb short_numeric_token (split_space text) = false ->
+  template_from_asm text = Ok ts.
+Proof. unfold spec_template, template_from_asm. apply map_match_tokens_spec. Qed.
